@@ -3,7 +3,7 @@
 # usage: tools/seeded_eval.sh <scratch worktree> <out.jsonl> [ids...]
 WT=$1; OUT=$2; shift 2
 cd "$(dirname "$0")/.."
-MAP="C01-m1:C01,C11,C02 C01-m2:C01,C02 C02-m2:C02,C10 C03-m1:C03 C03-m2:C03 C04-m1:C04,C03 C04-m2:C04 C05-m1:C05,C03 C05-m2:C05 C06-m1:C06 C06-m2:C06 C08-m1:C08 C08-m2:C08 C09-m1:C09 C09-m2:C09,C01 C10-m1:C10,C02 C10-m2:C10,C02 C11-m1:C11,C01,C02 C12-m1:C12 C12-m2:C12 C13-m1:C13 C13-m2:C13 C14-m1:C14,C04 C14-m2:C14,C06 C15-m1:C15 C15-m2:C15,C14 C16-m1:C16,C03 C16-m2:C16,C03 C17-m1:C17 C17-m2:C17 D01-m1:C01,C13 D01-m2:C01,C02 D02-m1:C01,C02 D02-m2:C02,C01 D03-m1:C03 D03-m2:C03 D05-m1:C05 D05-m2:C05 D06-m1:C02,C10 D06-m2:C02,C09,C01 D12-m1:C12 D12-m2:C12,C03 D13-m1:C13 D13-m2:C13 D15-m1:C15 D15-m2:C15"
+MAP="C01-m1:C01,C11,C02 C01-m2:C01,C02 C02-m2:C02,C10 C03-m1:C03 C03-m2:C03 C04-m1:C04,C03 C04-m2:C04 C05-m1:C05,C03 C05-m2:C05 C06-m1:C06 C06-m2:C06 C08-m1:C08 C08-m2:C08 C09-m1:C09 C09-m2:C09,C01 C10-m1:C10,C02 C10-m2:C10,C02 C11-m1:C11,C01,C02 C12-m1:C12 C12-m2:C12 C13-m1:C13 C13-m2:C13 C14-m1:C14,C04 C14-m2:C14,C06 C15-m1:C15 C15-m2:C15,C14 C16-m1:C16,C03 C16-m2:C16,C03 C17-m1:C17 C17-m2:C17 D01-m1:C01,C13 D01-m2:C01,C02 D02-m1:C01,C02 D02-m2:C02,C01 D03-m1:C03 D03-m2:C03 D05-m1:C05 D05-m2:C05 D06-m1:C02,C10 D06-m2:C02,C09,C01 D12-m1:C12 D12-m2:C12,C03 D13-m1:C13 D13-m2:C13 D15-m1:C15 D15-m2:C15 E04-m1:C04,C14 E04-m2:C04,C03 E08-m1:C08 E08-m2:C08 E09-m1:C01,C09 E10-m1:C10,C02 E10-m2:C02,C10 E11-m1:C11,C01 E11-m2:C11 E14-m1:C14 E14-m2:C14,C15 E16-m1:C17,C16 E16-m2:C16,C03 E17-m1:C17 E17-m2:C02,C17"
 for entry in $MAP; do
   id=${entry%%:*}; pids=${entry##*:}
   if [ $# -gt 0 ]; then case " $* " in *" $id "*) ;; *) continue;; esac; fi
